@@ -482,7 +482,8 @@ void f_mult_eq () {
 
     case T_MAPPING:
       {
-        mapping_t *m = compose_mapping (argp->u.map, sp->u.map, 0);
+        mapping_t *m = argp->u.map;
+        compose_mapping (m, sp->u.map, 0); /* flag 0: composes m in place and returns NULL */
         if (argp->u.map != sp->u.map)
           {
             pop_stack ();
